@@ -164,6 +164,49 @@ def _static_lengths(prog: Program, run: Run) -> None:
             good = ln.same(normalize(ast.parse("self.byte_length", mode="eval").body)) and \
                 normalize(arg.slice.lower).same(normalize(ast.parse(
                     "self.request_byte_position", mode="eval").body))
+    # ... and only when the request really has that many bytes: a slice of a shorter request is
+    # silently shorter, the PDU then lacks bytes the static length promises
+    if good and emp:
+        mcfg = CFG(mr.node)
+        est = None
+        for st_ in walk_no_nested(mr.node):
+            if isinstance(st_, ast.stmt) and not isinstance(st_, (ast.If, ast.For, ast.While,
+                                                                  ast.Try, ast.With)) and any(
+                    z is emp[0] for z in ast.walk(st_)):
+                est = st_
+        upper = common.resolve_locals(mr.node, arg.slice.upper)
+        reqtxt = ast.unparse(arg.value)
+        enough = False
+        for t, pol in (mcfg.branch_conditions(mcfg.node_of(est)) if est is not None else []):
+            t = common.resolve_locals(mr.node, t)
+            if not (isinstance(t, ast.Compare) and len(t.ops) == 1):
+                continue
+            l, r, op = t.left, t.comparators[0], type(t.ops[0])
+            if ast.unparse(r) == f"len({reqtxt})":
+                l, r = r, l
+                op = {ast.Lt: ast.Gt, ast.Gt: ast.Lt, ast.LtE: ast.GtE, ast.GtE: ast.LtE}.get(
+                    op, op)
+            if ast.unparse(l) != f"len({reqtxt})":
+                continue
+            if not pol:
+                op = {ast.Lt: ast.GtE, ast.LtE: ast.Gt, ast.Gt: ast.LtE, ast.GtE: ast.Lt}.get(
+                    op, op)
+            extra = {ast.GtE: 0, ast.Gt: 1}.get(op)
+            if extra is None:
+                continue
+            d = (normalize(r) - normalize(upper)).const_value()
+            if d is not None and d + extra >= 0:
+                enough = True
+        if enough:
+            run.ok(R, "MatchingRequestParameter._encode_positioned_into_pdu",
+                   "the request is required to be at least position + byte_length bytes long",
+                   mr.loc)
+        else:
+            run.violation(R, "MatchingRequestParameter._encode_positioned_into_pdu",
+                          "request-length-guard",
+                          f"the bytes are taken from `{ast.unparse(arg)}` without establishing "
+                          f"len({reqtxt}) >= {ast.unparse(upper)}: a request that is too short "
+                          "yields fewer bytes than the static length, silently", mr.loc)
     if good:
         run.ok(R, "MatchingRequestParameter._encode_positioned_into_pdu",
                "emplaces exactly byte_length bytes of the request", mr.loc)
